@@ -140,6 +140,32 @@ Section EvalFacts.
       apply DenIns_app; [exact Hd|]. constructor. constructor.
   Qed.
 
+  Definition pre_of (f : nat) (o : obj) :=
+    fun (acc : world * bool) (k : str) =>
+      match acc with
+      | (wa, false) => (wa, false)
+      | (wa, true) =>
+          match find_input o k with
+          | Some (_, inl j) => match eval classes run f wa j with
+                               | (wb, inl _) => (wb, true)
+                               | (wb, inr _) => (wb, false)
+                               end
+          | _ => (wa, true)
+          end
+      end.
+
+  Lemma fold_pre f o : P f -> forall l wa b wz bz,
+      Inv wa -> fold_left (pre_of f o) l (wa, b) = (wz, bz) -> Inv wz.
+  Proof.
+    intros HP. induction l as [|k l IH]; intros wa b wz bz Hi Hf.
+    - simpl in Hf. injection Hf as <- _. exact Hi.
+    - cbn [fold_left] in Hf. destruct b; cbn [pre_of] in Hf.
+      + destruct (find_input o k) as [[n [j|d]]|]; try (eapply IH; [exact Hi|exact Hf]).
+        destruct (eval classes run f wa j) as [wb [v|e]] eqn:Ee; destruct (HP _ _ _ _ Hi Ee) as [Hib _];
+          eapply IH; [exact Hib|exact Hf|exact Hib|exact Hf].
+      + eapply IH; [exact Hi|exact Hf].
+  Qed.
+
   Theorem eval_sound f : P f.
   Proof.
     induction f as [|f IHf]; intros w id w' r Hi He.
@@ -170,9 +196,13 @@ Section EvalFacts.
       assert (Hi2 : Inv w2).
       { destruct Hi1 as (Hm1 & Hs1 & Ho1). repeat split; [apply mem_sound_store, Hm1| |exact Ho1].
         apply store_sound_dset_other; [discriminate|exact Hs1]. }
-      set (w3 := {| w_store := w_store w2; w_objs := w_objs w2; w_states := w_states w2;
-                    w_runlog := w_runlog w2 ++ [(c_slug tc, o_key o)]; w_fail := w_fail w2 |}) in *.
-      assert (Hi3 : Inv w3) by exact Hi2.
+      fold (pre_of f o) in He.
+      destruct (fold_left (pre_of f o) (c_runargs tc) (w2, true)) as [w2' b'] eqn:Epre.
+      assert (Hi2' : Inv w2') by (eapply fold_pre; [exact IHf|exact Hi2|exact Epre]).
+      destruct b'; [|injection He as <- <-; split; [exact Hi2'|discriminate]].
+      set (w3 := {| w_store := w_store w2'; w_objs := w_objs w2'; w_states := w_states w2';
+                    w_runlog := w_runlog w2' ++ [(c_slug tc, o_key o)]; w_fail := w_fail w2' |}) in *.
+      assert (Hi3 : Inv w3) by exact Hi2'.
       destruct (existsb (str_eqb (c_slug tc)) (w_fail w3)).
       { injection He as <- <-. split; [exact Hi3|discriminate]. }
       destruct (fold_left (step_of f) (o_inputs o) (w3, inl [])) as [w4 [ins|e]] eqn:Ef.
@@ -199,6 +229,22 @@ Section EvalFacts.
         * rewrite dget_dset_other in Hp by assumption. now apply Hlog.
   Qed.
 End EvalFacts.
+
+(* whatever relation between worlds every request preserves is preserved by the requests for the run
+   arguments *)
+Lemma fold_pre_rel classes run (R : world -> world -> Prop) f o :
+  (forall w, R w w) -> (forall a b c, R a b -> R b c -> R a c) ->
+  (forall w id w' r, eval classes run f w id = (w', r) -> R w w') ->
+  forall l wa b wz bz, fold_left (pre_of classes run f o) l (wa, b) = (wz, bz) -> R wa wz.
+Proof.
+  intros Hrefl Htrans He. induction l as [|k l IH]; intros wa b wz bz Hf.
+  - simpl in Hf. injection Hf as <- _. apply Hrefl.
+  - cbn [fold_left] in Hf. destruct b; cbn [pre_of] in Hf.
+    + destruct (find_input o k) as [[n [j|d]]|]; try (eapply IH; exact Hf).
+      destruct (eval classes run f wa j) as [wb [v|e]] eqn:Ee; apply He in Ee;
+        (eapply Htrans; [exact Ee|eapply IH; exact Hf]).
+    + eapply IH; exact Hf.
+Qed.
 
 (* ---------- C04: served from memory / loaded without running, without touching upstream ---------- *)
 Section Served.
@@ -263,13 +309,22 @@ Section Served.
       destruct (os_mem (state_of w id)); [injection He as <- _; exists []; now rewrite app_nil_r|].
       destruct (if persisting (c_data tc) && negb (os_forced (state_of w id)) then _ else None) as [[|v1|v1|l1]|].
       1-4: injection He as <- _; exists []; simpl; now rewrite app_nil_r.
+      fold (pre_of classes run f o) in He.
+      match type of He with context [fold_left (pre_of classes run f o) ?l ?a] =>
+        destruct (fold_left (pre_of classes run f o) l a) as [w2' b'] eqn:Epre end.
+      apply (fold_pre_rel classes run (fun a b => exists d, w_runlog b = w_runlog a ++ d)) in Epre;
+        [|intros a; exists []; now rewrite app_nil_r
+         |intros a b c [d1 H1] [d2 H2]; exists (d1 ++ d2); rewrite H2, H1; now rewrite app_assoc
+         |exact IHf].
+      destruct Epre as [d0 Hd0]. simpl in Hd0.
+      destruct b'; [|injection He as <- _; exists d0; exact Hd0].
       destruct (existsb _ _).
-      { injection He as <- _. eexists. reflexivity. }
+      { injection He as <- _. simpl. eexists. rewrite Hd0, <- app_assoc. reflexivity. }
       match type of He with (match ?X with _ => _ end) = _ => destruct X as [w4 [ins|e]] eqn:Ef end.
       + apply (fold_runlog_prefix f IHf) in Ef. destruct Ef as [d Hd]. injection He as <- _. simpl.
-        simpl in Hd. eexists. rewrite Hd. rewrite <- app_assoc. reflexivity.
+        simpl in Hd. eexists. rewrite Hd, Hd0. rewrite <- !app_assoc. reflexivity.
       + apply (fold_runlog_prefix f IHf) in Ef. destruct Ef as [d Hd]. injection He as <- _.
-        simpl in Hd. eexists. rewrite Hd. rewrite <- app_assoc. reflexivity.
+        simpl in Hd. eexists. rewrite Hd, Hd0. rewrite <- !app_assoc. reflexivity.
   Qed.
 
 End Served.
@@ -278,15 +333,45 @@ Section Forced.
   Variable classes : list tclass.
   Variable run : nat -> list (str * str) -> list (str * value) -> value.
 
-  (* a forced object with nothing in memory runs although a result may be stored *)
+  (* a forced object with nothing in memory runs although a result may be stored: the inputs named in
+     the signature of run are requested first (d0: what they run); unless one of them fails, the run
+     of the object itself is started *)
   Theorem eval_forced_runs f w id o tc w' r :
     nth_error (w_objs w) id = Some o -> cls_of classes o = Some tc ->
     os_mem (state_of w id) = None -> os_forced (state_of w id) = true ->
     eval classes run (S f) w id = (w', r) ->
-    exists d, w_runlog w' = w_runlog w ++ (c_slug tc, o_key o) :: d.
+    (exists d0 d, w_runlog w' = w_runlog w ++ d0 ++ (c_slug tc, o_key o) :: d) \/
+    (r = inr ERun /\ c_runargs tc <> []).
   Proof.
     intros Ho Hc Hm Hf He. cbn [eval] in He. fold (step_of classes run f) in He.
     rewrite Ho, Hc, Hm, Hf, andb_false_r in He.
+    fold (pre_of classes run f o) in He.
+    match type of He with context [fold_left (pre_of classes run f o) ?l ?a] =>
+      destruct (fold_left (pre_of classes run f o) l a) as [w2' b'] eqn:Epre end.
+    assert (Hne : b' = false -> c_runargs tc <> []).
+    { intros -> E. rewrite E in Epre. simpl in Epre. discriminate. }
+    apply (fold_pre_rel classes run (fun a b => exists d, w_runlog b = w_runlog a ++ d)) in Epre;
+      [|intros a; exists []; now rewrite app_nil_r
+       |intros a b c [d1 H1] [d2 H2]; exists (d1 ++ d2); rewrite H2, H1; now rewrite app_assoc
+       |apply eval_runlog_grows].
+    destruct Epre as [d0 Hd0]. simpl in Hd0.
+    destruct b'; [|injection He as <- <-; right; split; [reflexivity|now apply Hne]].
+    left. destruct (existsb _ _).
+    { injection He as <- _. exists d0, []. simpl. rewrite Hd0, <- app_assoc. reflexivity. }
+    match type of He with (match ?X with _ => _ end) = _ => destruct X as [w4 [ins|e]] eqn:Ef end;
+      apply (fold_runlog_prefix classes run f (eval_runlog_grows classes run f)) in Ef; destruct Ef as [d Hd];
+      injection He as <- _; simpl in *; exists d0, d; rewrite Hd, Hd0; now rewrite <- !app_assoc.
+  Qed.
+
+  (* a task that names no input in the signature of run: its own run is the first thing that happens *)
+  Corollary eval_forced_runs_plain f w id o tc w' r :
+    nth_error (w_objs w) id = Some o -> cls_of classes o = Some tc -> c_runargs tc = [] ->
+    os_mem (state_of w id) = None -> os_forced (state_of w id) = true ->
+    eval classes run (S f) w id = (w', r) ->
+    exists d, w_runlog w' = w_runlog w ++ (c_slug tc, o_key o) :: d.
+  Proof.
+    intros Ho Hc Hr Hm Hf He. cbn [eval] in He. fold (step_of classes run f) in He.
+    rewrite Ho, Hc, Hm, Hf, andb_false_r, Hr in He. cbn [fold_left] in He.
     destruct (existsb _ _).
     { injection He as <- _. exists []. reflexivity. }
     match type of He with (match ?X with _ => _ end) = _ => destruct X as [w4 [ins|e]] eqn:Ef end;
@@ -322,9 +407,16 @@ Section Forced.
       destruct (if persisting (c_data tc) && negb (os_forced (state_of w id)) then _ else None) as [[|v1|v1|l1]|].
       1,3,4: now injection He as <- _.
       { injection He as <- _. simpl. apply set_nth_length. }
-      destruct (existsb _ _); [now injection He as <- _|].
+      fold (pre_of classes run f o) in He.
+      match type of He with context [fold_left (pre_of classes run f o) ?l ?a] =>
+        destruct (fold_left (pre_of classes run f o) l a) as [w2' b'] eqn:Epre end.
+      apply (fold_pre_rel classes run (fun a b => List.length (w_states b) = List.length (w_states a))) in Epre;
+        [|reflexivity|intros a b c H1 H2; congruence|exact IHf].
+      simpl in Epre.
+      destruct b'; [|injection He as <- _; exact Epre].
+      destruct (existsb _ _); [injection He as <- _; exact Epre|].
       match type of He with (match ?X with _ => _ end) = _ => destruct X as [w4 [ins|e]] eqn:Ef end;
-        apply (fold_states_len f IHf) in Ef; injection He as <- _; simpl in *; [rewrite set_nth_length|]; exact Ef.
+        apply (fold_states_len f IHf) in Ef; injection He as <- _; simpl in *; [rewrite set_nth_length|]; congruence.
   Qed.
 
   (* a successful request leaves the value in memory: every later request on the same object is a
@@ -342,6 +434,13 @@ Section Forced.
     1,3,4: discriminate.
     { injection He as <- <-. rewrite state_of_set_state. simpl. rewrite Nat.eqb_refl.
       apply Nat.ltb_lt in Hl. now rewrite Hl. }
+    fold (pre_of classes run f o) in He.
+    match type of He with context [fold_left (pre_of classes run f o) ?l ?a] =>
+      destruct (fold_left (pre_of classes run f o) l a) as [w2' b'] eqn:Epre end.
+    apply (fold_pre_rel classes run (fun a b => List.length (w_states b) = List.length (w_states a))) in Epre;
+      [|reflexivity|intros a b c H1 H2; congruence|apply eval_states_len].
+    simpl in Epre.
+    destruct b'; [|discriminate].
     destruct (existsb _ _); [discriminate|].
     match type of He with (match ?X with _ => _ end) = _ => destruct X as [w4 [ins|e]] eqn:Ef end; [|discriminate].
     apply (fold_states_len f (eval_states_len f)) in Ef. injection He as <- <-.
@@ -378,9 +477,16 @@ Section Objs.
       destruct (os_mem (state_of w id)); [now injection He as <- _|].
       destruct (if persisting (c_data tc) && negb (os_forced (state_of w id)) then _ else None) as [[|v1|v1|l1]|].
       1-4: now injection He as <- _.
-      destruct (existsb _ _); [now injection He as <- _|].
+      fold (pre_of classes run f o) in He.
+      match type of He with context [fold_left (pre_of classes run f o) ?l ?a] =>
+        destruct (fold_left (pre_of classes run f o) l a) as [w2' b'] eqn:Epre end.
+      apply (fold_pre_rel classes run (fun a b => w_objs b = w_objs a)) in Epre;
+        [|reflexivity|intros a b c H1 H2; congruence|exact IHf].
+      simpl in Epre.
+      destruct b'; [|injection He as <- _; exact Epre].
+      destruct (existsb _ _); [injection He as <- _; exact Epre|].
       match type of He with (match ?X with _ => _ end) = _ => destruct X as [w4 [ins|e]] eqn:Ef end;
-        apply (fold_objs f IHf) in Ef; injection He as <- _; simpl in *; exact Ef.
+        apply (fold_objs f IHf) in Ef; injection He as <- _; simpl in *; congruence.
   Qed.
 
   (* C13: the members of a MultiChain hold ONE object for one computation, so a value computed through
